@@ -34,8 +34,78 @@ fn run_convert(sc: &Value) -> Value {
     json!({"id": sc["id"], "fam": "views", "kind": "convert", "a": a, "rows": out, "outcome": "ok"})
 }
 
+fn observe<B: AsRef<[u32]> + AsMut<[u32]>>(dt: &DrawTarget<B>, tag: &str) -> Value {
+    let words = pix(dt.get_data());
+    let bytes: Vec<u32> = dt.get_data_u8().iter().map(|b| *b as u32).collect();
+    let path = std::env::temp_dir().join(format!("rqconf-{}-{}.png", std::process::id(), tag));
+    let mut o = json!({"words": words, "bytes": bytes, "png_w": 0, "png_h": 0, "png_kind": "none", "png": []});
+    match dt.write_png(&path) {
+        Ok(()) => {
+            if let Ok(f) = std::fs::File::open(&path) {
+                let dec = png::Decoder::new(f);
+                if let Ok(mut rd) = dec.read_info() {
+                    let mut buf = vec![0u8; rd.output_buffer_size()];
+                    if let Ok(info) = rd.next_frame(&mut buf) {
+                        o["png_w"] = json!(info.width);
+                        o["png_h"] = json!(info.height);
+                        o["png_kind"] = json!(format!("{:?}{}", info.color_type, match info.bit_depth { png::BitDepth::Eight => "8", _ => "x" }));
+                        o["png"] = json!(buf[..info.buffer_size()].iter().map(|b| *b as u32).collect::<Vec<u32>>());
+                    }
+                }
+            }
+        }
+        Err(_) => {
+            o["png_kind"] = json!("error");
+        }
+    }
+    let _ = std::fs::remove_file(&path);
+    o
+}
+
+fn apply_write<B: AsRef<[u32]> + AsMut<[u32]>>(dt: &mut DrawTarget<B>, w: &Value) {
+    match w[0].as_str().unwrap() {
+        "word" => dt.get_data_mut()[int(&w[1]) as usize] = unpx(&w[2]),
+        _ => dt.get_data_u8_mut()[int(&w[1]) as usize] = int(&w[2]) as u8,
+    }
+}
+
 fn run_views(sc: &Value) -> Value {
-    json!({"id": sc["id"], "fam": "views", "kind": "views", "outcome": "unimplemented"})
+    let w = int(&sc["w"]);
+    let h = int(&sc["h"]);
+    let ctor = sc["ctor"].as_str().unwrap();
+    let pixels = unpix(&sc["pixels"]);
+    let writes = sc["writes"].as_array().unwrap();
+    let tag = format!("{:x}", sc["id"].as_str().map(|s| s.len()).unwrap_or(0) + writes.len() * 131 + (w * 7 + h) as usize);
+    let r = std::panic::catch_unwind(|| {
+        let mut obs = Vec::new();
+        let into;
+        if ctor == "from_backing" {
+            let mut dt = DrawTarget::from_backing(w, h, pixels.clone());
+            obs.push(observe(&dt, &tag));
+            for wr in writes {
+                apply_write(&mut dt, wr);
+                obs.push(observe(&dt, &tag));
+            }
+            into = pix(&dt.into_inner());
+        } else {
+            let mut dt = if ctor == "new" { DrawTarget::new(w, h) } else { DrawTarget::from_vec(w, h, pixels.clone()) };
+            obs.push(observe(&dt, &tag));
+            for wr in writes {
+                apply_write(&mut dt, wr);
+                obs.push(observe(&dt, &tag));
+            }
+            into = pix(&dt.into_vec());
+        }
+        (obs, into)
+    });
+    let c = &sc["solid"];
+    let solid = SolidSource { a: int(&c[0]) as u8, r: int(&c[1]) as u8, g: int(&c[2]) as u8, b: int(&c[3]) as u8 };
+    match r {
+        Ok((obs, into)) => json!({"id": sc["id"], "fam": "views", "kind": "views", "w": w, "h": h, "ctor": ctor,
+                                   "pixels": sc["pixels"], "writes": sc["writes"], "outcome": "ok", "obs": obs, "into": into,
+                                   "solid": sc["solid"], "solid_word": split(solid.to_u32())}),
+        Err(e) => json!({"id": sc["id"], "fam": "views", "kind": "views", "outcome": "panic", "msg": crate::panic_msg(&e)}),
+    }
 }
 
 pub fn drive(_seed: u64, _n: usize) -> Vec<Value> {
